@@ -212,7 +212,28 @@ def install(interp):
     def t_no_grad():
         raise Unsupported("torch.no_grad() outside a with statement")
 
+    def _cmp(opname):
+        """torch.lt / le / gt / ge / eq / ne (a, b, *, out=None): element-wise comparison; with ``out`` the result is written IN
+        PLACE into that tensor object (every reference to it sees the new values) and the same object is returned"""
+        import operator as _op
+
+        fn = {"lt": _op.lt, "le": _op.le, "gt": _op.gt, "ge": _op.ge, "eq": _op.eq, "ne": _op.ne}[opname]
+
+        def cmp(a, b, *, out=None):
+            res = fn(a if isinstance(a, T) else _t(a), b)
+            if out is None:
+                return res
+            if not isinstance(out, T) or not isinstance(res, T):
+                raise Unsupported(f"torch.{opname}(out=...) on a non-tensor")
+            out.f, out.dtype, out.nan = res.f, res.dtype, res.nan
+            if res.tlen is not None or out.tlen is not None:
+                out.tlen, out.taxis = res.tlen, res.taxis
+            return out
+
+        return cmp
+
     table = dict(
+        lt=_cmp("lt"), le=_cmp("le"), gt=_cmp("gt"), ge=_cmp("ge"), less=_cmp("lt"), greater=_cmp("gt"),
         exp=t_exp, log=t_log, sqrt=t_sqrt, where=t_where, clamp=t_clamp, clip=t_clamp,
         clamp_min=lambda x, m: x.clamp_min(m), clamp_max=lambda x, m: x.clamp_max(m),
         logical_and=tz.logical_and, logical_or=tz.logical_or, logical_not=tz.logical_not,
